@@ -175,6 +175,12 @@ class Unit:
             if n in self.fi.tuple_structs and len(self.fi.tuple_structs[n]) >= 2 \
                     and (self.open_tuple_structs is None or n in self.open_tuple_structs):
                 return ("tuple", [self.resolve(x, n) for x in self.fi.tuple_structs[n]])
+            if n in self.fi.tuple_structs and len(self.fi.tuple_structs[n]) == 1 \
+                    and (self.open_tuple_structs is None or n in self.open_tuple_structs):
+                # newtype `struct ChannelId(Vec<u8>)`: its only component (`x.0` and `ChannelId(v)` are the identity)
+                t1 = self.resolve(self.fi.tuple_structs[n][0], n)
+                self.newtype_reps = getattr(self, "newtype_reps", []) + [t1]
+                return t1
             if n in ("Mutex", "Arc", "RefCell", "MutexGuard", "Rc") and len(t[2]) == 1:
                 return self.resolve(t[2][0], impl)     # trusted: locking is the identity on the protected value
             if n in ("BTreeMap", "OrderedMap", "Map", "HashMap", "UnorderedMap") and len(t[2]) >= 2:
@@ -446,7 +452,10 @@ class FnTranslator:
         params = []
         self.selfk = f["self"]
         if f["self"] in ("val", "valmut"):
-            raise RsError("by-value self receiver is outside the subset")
+            # `self` / `mut self` by value: value semantics anyway (a local `mut self` is shadowed, not returned)
+            f = dict(f); f["self"] = "ref"; self.f = f
+            self.selfk = "ref"
+            self.byval_self = True
         self.trait_self = False
         self.loops = []      # enclosing translated loops (innermost last)
         self.patlets = []    # projections bound by struct patterns, flushed into the arm body
@@ -455,6 +464,11 @@ class FnTranslator:
         if f["self"]:
             if self.impl in u.fi.enum_data or u.fi.enums.get(self.impl) is not None:
                 if f["self"] != "ref": raise RsError("&mut self method of an enum")
+                st = u.resolve(("named", self.impl, []))
+                env["self"] = st
+                params.append(("self", st))
+            elif self.impl in u.fi.tuple_structs and u.resolve(("named", self.impl, []))[0] != "opaque":
+                if f["self"] != "ref": raise RsError("&mut self method of a tuple struct")
                 st = u.resolve(("named", self.impl, []))
                 env["self"] = st
                 params.append(("self", st))
@@ -495,6 +509,7 @@ class FnTranslator:
         info.mut_params = list(self.mut_params)
         info.has_self = bool(params) and params[0][0] == "self"
         info.out_names = [n for n, _ in self.out_parts()]
+        info.returns_guard = "MutexGuard" in repr(f["ret"]) or "RefMut" in repr(f["ret"])
         info.monadic = self.is_result or monadic(ir)
         info.exts = self.exts
         info.ir = ir
@@ -530,7 +545,7 @@ class FnTranslator:
 
     def prescan(self, blk):
         """a `&self` method that mutates through a lock, or calls one that does, returns the new self as well"""
-        if self.selfk != "ref": return
+        if self.selfk != "ref" or getattr(self, "byval_self", False): return
         def walk(e, fn):
             if isinstance(e, tuple):
                 if e and e[0] == "macro": return
@@ -829,7 +844,11 @@ class FnTranslator:
             if e[0] in ("if", "iflet", "match") and self.has_jump(e):
                 raise RsError("return inside a let initialiser (line %d)" % line)
             pre = []
+            self.last_guard = False
             term, t = self.expr(e, env, pre, want)
+            if self.last_guard and pat[0] == "pvar":
+                # the value of a function that returns a MutexGuard: a copy here, so writes through it would be lost
+                self.guard_vars = getattr(self, "guard_vars", set()) | {pat[1]}
             if want is not None:
                 self.check_ty(t, want, "let at line %d" % line); t = want
             if t == INTLIT: raise RsError("integer literal without a type (line %d)" % line)
@@ -1163,6 +1182,8 @@ class FnTranslator:
             if v not in env: raise RsError("assignment to unknown variable %s" % v)
             if env[v][0] == "alias":
                 return self.place_set(env[v][1], new, env, pre)
+            if v in getattr(self, "guard_vars", ()):
+                raise RsError("write through the MutexGuard returned by a function (%s) is outside the subset" % v)
             pre.append(("let", lid(v), new))
             return env
         if k == "field":
@@ -1234,6 +1255,31 @@ class FnTranslator:
             if bt[0] == "map" and bt[1] == ("str",) and e[2] == "remove":
                 k, kt = self.expr(e[4][0], env, pre, ("str",)); self.check_ty(kt, ("str",), "map key")
                 return self.place_set(recv, "(Rs.smapRemove %s %s)" % (base, k), env, pre)
+            if e[2] == "copy_from_slice" and len(e[4]) == 1:
+                dst = recv
+                while dst[0] in ("paren", "ref"): dst = dst[1]
+                U = ("int", "usize")
+                if dst[0] == "index" and dst[2][0] == "range":
+                    place = dst[1]
+                    base, bt2 = self.expr(place, env, pre, None)
+                    _, ra, rb, incl = dst[2]
+                    if incl: raise RsError("copy_from_slice into an inclusive range")
+                    a = "0"
+                    if ra is not None:
+                        a, at = self.expr(ra, env, pre, U); self.check_ty(at, U, "slice start")
+                    b = "%s.length" % base
+                    if rb is not None:
+                        b, btt = self.expr(rb, env, pre, U); self.check_ty(btt, U, "slice end")
+                else:
+                    place = dst
+                    base, bt2 = self.expr(place, env, pre, None)
+                    a, b = "0", "%s.length" % base
+                if bt2[0] != "vec": raise RsError("copy_from_slice on a non-slice")
+                src, st = self.expr(e[4][0], env, pre, bt2)
+                self.check_ty(st, bt2, "copy_from_slice")
+                v = self.fresh("v")
+                pre.append(("bind", v, MCall("Rs.copyFromSlice %s %s %s %s" % (base, self.paren(a), self.paren(b), self.paren(src)))))
+                return self.place_set(place, v, env, pre)
             r = self.mutator(recv, e[2], e[4], env, pre, None, discard=True)
             if r is not None: return env
             raise RsError("mutating method %s on %r is outside the subset" % (e[2], bt[0]))
@@ -1427,6 +1473,8 @@ class FnTranslator:
             return "%s.%s" % (base, lid(e[2])), ft
         if k == "tfield":
             base, bt = self.expr(e[1], env, pre, None)
+            if bt[0] != "tuple" and e[2] == 0 and bt in getattr(self.u, "newtype_reps", []):
+                return base, bt       # `.0` of a newtype listed under tuple_structs
             if bt[0] != "tuple": raise RsError("tuple field on a non-tuple")
             n, i = len(bt[1]), e[2]
             if i >= n: raise RsError("tuple index out of range")
@@ -1622,6 +1670,15 @@ class FnTranslator:
 
     def binary(self, e, env, pre, want):
         _, op, l, r = e
+        # (added for C18, byte_utils.rs) `8 * 7`: arithmetic on two unsuffixed literals is a literal
+        # (folded only while the value stays in 0 .. 2^31-1, where every integer type Rust can infer agrees)
+        ul, ur = l, r
+        while ul[0] == "paren": ul = ul[1]
+        while ur[0] == "paren": ur = ur[1]
+        if op in ("+", "-", "*") and ul[0] == "int" and ur[0] == "int" and not ul[2] and not ur[2]:
+            v = {"+": ul[1] + ur[1], "-": ul[1] - ur[1], "*": ul[1] * ur[1]}[op]
+            if 0 <= v < 2 ** 31:
+                return self.expr(("int", v, None), env, pre, want)
         if op in ("&&", "||"):
             a, at = self.expr(l, env, pre, BOOL)
             pre2 = []
@@ -1804,6 +1861,7 @@ class FnTranslator:
             self.want_result = False
 
     def call_translated(self, info, args_terms, env, pre, self_term=None):
+        if getattr(info, "returns_guard", False): self.last_guard = True
         if getattr(info, "mut_params", None): raise RsError("call of a function with &mut parameters is outside the subset")
         for x in info.exts: self.add_ext(*x)
         for o in info.needs_deq:
@@ -1938,6 +1996,18 @@ class FnTranslator:
                 term, t = self.expr(x, env, pre, ("vec", ("int", "u8")))
                 if t != ("vec", ("int", "u8")): raise RsError("%s on %r" % (name, t))
             return "(Rs.%s %s)" % ("fromBeBytes" if name == "from_be_bytes" else "fromLeBytes", term), ("int", segs[0]), "val"
+        tsn = self.impl if segs == ["Self"] else (segs[-1] if len(segs) == 1 else None)
+        if tsn in self.u.fi.tuple_structs and (self.u.open_tuple_structs is None or tsn in self.u.open_tuple_structs):
+            # constructor of a tuple struct listed under tuple_structs: the tuple of the components / the component
+            tyr = self.u.resolve(("named", tsn, []))
+            comps = tyr[1] if len(self.u.fi.tuple_structs[tsn]) >= 2 else [tyr]
+            if len(comps) != len(args): raise RsError("constructor %s arity" % tsn)
+            terms = []
+            for a_, ft in zip(args, comps):
+                term, t = self.expr(a_, env, pre, ft)
+                self.check_ty(t, ft, "argument of %s(..)" % tsn)
+                terms.append(term)
+            return (terms[0] if len(terms) == 1 else "(" + ", ".join(terms) + ")"), tyr, "val"
         en = (segs[-2] if segs[-2] != "Self" else self.impl) if len(segs) >= 2 else None
         if en in self.u.fi.enum_data and name in [v for v, _ in self.u.fi.enum_data[en]]:
             names, tys = self.u.variant_types(en, name)
@@ -1966,19 +2036,31 @@ class FnTranslator:
             return self.call_translated(info, a, env, pre)
         raise RsError("call of unknown function %s (not in this file, not declared external)" % "::".join(segs))
 
-    def call_external(self, name, args, env, pre):
+    def call_external(self, name, args, env, pre, first=None):
         spec = self.u.externals[name]
         pts = [self.u.parse_type(s, self.impl) for s in spec["params"]]
         rt = self.u.parse_type(spec["ret"], self.impl)
         if len(pts) != len(args): raise RsError("external %s arity" % name)
         terms = []
+        if first is not None:
+            # a method of a field: the field's value is the first argument (the external is a pure function of it:
+            # only read-only methods may be declared this way)
+            terms.append(self.paren(first[0])); pts = [first[1]] + pts; args = [None] + list(args)
         for a, pt in zip(args, pts):
+            if a is None: continue
             term, t = self.expr(a, env, pre, pt)
             self.check_ty(t, pt, "argument of external %s" % name)
             terms.append(term if " " not in term or term.startswith("(") else "(" + term + ")")
+        lname = "ext_" + name.replace(".", "_")
+        if rt[0] == "result":
+            # a Result-returning external: a computation of the outcome monad (only `?` / tail position use it)
+            lty = " → ".join([self.u.lt(t, False) for t in pts] + ["Rs.M " + self.u.lt(rt[1], False)])
+            self.add_ext(lname, lty)
+            return ("%s %s" % (lname, " ".join(terms))).rstrip(), rt[1], "comp"
         lty = " → ".join([self.u.lt(t, False) for t in pts] + [self.u.lt(rt, False)])
-        self.add_ext("ext_" + name, lty)
-        return "(ext_%s %s)" % (name, " ".join(terms)), rt, "val"
+        self.add_ext(lname, lty)
+        if not terms: return lname, rt, "val"
+        return "(%s %s)" % (lname, " ".join(terms)), rt, "val"
 
     def mcall(self, e, env, pre, want):
         _, recv, m, turbo, args, line = e
@@ -2009,6 +2091,10 @@ class FnTranslator:
                 pre.append(("let", "(self, %s)" % v, term))
                 return v, info.val_ty, "val"
             return self.call_translated(info, a, env, pre, "self")
+        if recv[0] == "field" and recv[1] == ("path", ["self"]) and ("%s.%s" % (recv[2], m)) in self.u.externals:
+            # method of a (generic / foreign) field declared external in the target list: `self.local.get(k)`
+            ft, fty = self.expr(recv, env, pre, None)
+            return self.call_external("%s.%s" % (recv[2], m), args, env, pre, first=(ft, fty))
         if recv == ("path", ["self"]) and self.trait_self and (self.impl, m) in self.u.fi.decl_only:
             return self.decl_external(self.impl, m, args, env, pre)
         if recv[0] == "path" and len(recv[1]) == 1 and recv[1][0] not in env and recv[1][0] != "self":
@@ -2054,6 +2140,11 @@ class FnTranslator:
             return v, bt, "val"
         base, bt = self.expr(recv, env, pre, None)
         k = bt[0]
+        if m == "lock" and not args and k not in ("opaque", "iter", "viter", "lockres"):
+            return base, ("lockres", bt), "val"      # trusted: locking is the identity on the protected value
+        if k == "lockres":
+            if m in ("unwrap", "expect"): return base, bt[1], "val"
+            raise RsError("lock result used other than by unwrap/expect")
         if m in ("clone", "copied", "cloned", "as_ref", "to_owned", "borrow") and not args and k not in ("iter", "viter"):
             return base, bt, "val"
         if m == "into" and not args:
@@ -2371,7 +2462,7 @@ MUTATORS = ("push", "push_back", "push_front", "pop", "pop_back", "pop_front", "
             "retain", "drain", "reverse", "get_or_insert", "replace", "insert", "clear")
 MUT_METHODS = ("resize", "insert", "push", "clear", "truncate", "extend", "remove", "pop", "retain", "drain", "sort",
                "iter_mut", "push_front", "push_back", "pop_front", "pop_back", "append", "extend_from_slice", "reverse",
-               "get_or_insert", "replace")
+               "get_or_insert", "replace", "copy_from_slice")
 
 
 def fn_lean_lines(info):
